@@ -851,9 +851,20 @@ fn cmp_uncoercible_numbers(left: &Value, right: &Value) -> Ordering {
     }
 }
 
+/// The slot of a kind in the value ordering.
+///
+/// Iterables compare by their items like sequences do (and `==` treats the two
+/// alike), so they share the slot of the sequences.
+fn cmp_kind(kind: ValueKind) -> ValueKind {
+    match kind {
+        ValueKind::Iterable => ValueKind::Seq,
+        kind => kind,
+    }
+}
+
 impl Ord for Value {
     fn cmp(&self, other: &Self) -> Ordering {
-        let kind_ordering = self.kind().cmp(&other.kind());
+        let kind_ordering = cmp_kind(self.kind()).cmp(&cmp_kind(other.kind()));
         if matches!(kind_ordering, Ordering::Less | Ordering::Greater) {
             return kind_ordering;
         }
